@@ -183,6 +183,10 @@ func (p *Plan) Scalar(key, typeName string) *parsers.J {
 	}
 }
 
+// TypedNil says whether a null outcome at an interface-typed position is delivered as a typed nil
+// pointer instead of a nil interface.
+func (p *Plan) TypedNil(path string) bool { return h64(p.Seed, "tn|"+path)%2 == 0 }
+
 // TagPanics says whether the eager marshal function of the Tag value at key panics.
 func (p *Plan) TagPanics(key string) bool {
 	if p.Faults[key] == KMarshalPanic {
